@@ -96,6 +96,15 @@ def CgP.runSplit (P : CgP K V) (x0 junk junk' : V) (n m : Nat) : CgS K V :=
   let b := iter P.step m (P.init a.x junk')
   { b with log := a.log ++ b.log }
 
+variable {W : Type} [SMul K W] [Add W]
+
+/-- The same for `conjugate_gradient_normal`: the second call rebuilds `d`, `p`, `s`,
+`sqnorm_s_old` from the returned `x` (`CgnP.init`). -/
+def CgnP.runSplit (P : CgnP K V W) (x0 : V) (junk junk' : W) (n m : Nat) : CgnS K V W :=
+  let a := iter P.step n (P.init x0 junk)
+  let b := iter P.step m (P.init a.x junk')
+  { b with log := a.log ++ b.log }
+
 end CgRestart
 
 end OdlModel.Solvers
